@@ -236,10 +236,16 @@ def search(ctx, seeds, full=False):
     def run(label, data, al, sizes):
         ctx.evaluations += 1
         why, t = oracle(al, data, sizes)
-        if why:
+        if why and len(fresh) < 8:
             def still(sub):
                 return oracle(al, data, sub)[0] is not None
-            small = common.shrink_list(sizes, still, max_steps=60) if len(sizes) > 1 else sizes
+            small = sizes
+            for cand in ([len(data), 0], [4096] * (len(data) // 4096 + 1) + [0], [512] * (len(data) // 512 + 1) + [0]):
+                if len(cand) < len(small) and still(cand):
+                    small = cand
+                    break
+            if 1 < len(small) <= 48:
+                small = common.shrink_list(small, still, max_steps=30)
             add(case_of(label, data, al, small), '%s: %s' % (label, oracle(al, data, small)[0]))
         return t
 
@@ -261,6 +267,8 @@ def search(ctx, seeds, full=False):
             if full or not ctx.quick:
                 contents += G.c03_huge_contents(rng, True)
             for label, data in contents:
+                if len(fresh) >= 8:
+                    break
                 n = len(data)
                 big = n > 64 * images.K
                 rs = G.read_sizes(n, rng, ctx.quick)
